@@ -16,7 +16,7 @@ call, removed no item -/
 theorem KStep.cancelled_waiter {k k' : K} (h : KStep k k') (hi : k.Inv) (c : Nat) (x x' : Core)
     (hx : k.cores[c]? = some x) (hp : preBlock x.phase = true) (hx' : k'.cores[c]? = some x') (hd : Q.isDone x'.phase = true) :
     x'.phase = .done .cancelled false ∧ x'.marks = 0 ∧ k'.items = k.items ∧ k'.unfinished = k.unfinished
-      ∧ k'.tdCalls = k.tdCalls ∧ k'.exits = k.exits ∧ k'.puts = k.puts := by
+      ∧ k'.tdCalls = k.tdCalls ∧ k'.exits = k.exits ∧ k'.puts = k.puts ∧ k'.takes = k.takes := by
   have hnd : Q.isDone x.phase = false := by
     cases x with | mk ph m => cases ph <;> simp_all [Q.isDone, preBlock]
   have hlt : c < k.cores.length := (List.getElem?_eq_some_iff.1 hx).1
@@ -45,7 +45,7 @@ theorem KStep.cancelled_waiter {k k' : K} (h : KStep k k') (hi : k.Inv) (c : Nat
     simp only [K.abort, K.setPhase, List.getElem?_modify, hx, Option.map_eq_map, Option.map_some, Option.some.injEq] at hx'
     subst hx'
     by_cases hc : c0 = c
-    · exact ⟨by simp [hc], by simpa [hc] using hm, rfl, rfl, rfl, rfl, rfl⟩
+    · exact ⟨by simp [hc], by simpa [hc] using hm, rfl, rfl, rfl, rfl, rfl, rfl⟩
     · simp only [hc, if_false] at hd; simp [hnd] at hd
   | exit c0 x0 e h0 hp0 =>
     rw [K.cores_exit] at hx'
@@ -56,6 +56,86 @@ theorem KStep.cancelled_waiter {k k' : K} (h : KStep k k') (hi : k.Inv) (c : Nat
     · simp only [hc, if_false] at hx'; subst hx'; simp [hnd] at hd
   | stepJ j =>
     rw [(K.view_stepJoiner k j).2, hx] at hx'; cases hx'; simp [hnd] at hd
+  | handTake =>
+    rw [K.cores_handTake, hx] at hx'; cases hx'; simp [hnd] at hd
+
+/-- `task_done()` edits the counter, the event and the joiners only -/
+theorem K.frame_taskDone (k : K) :
+    k.taskDone.items = k.items ∧ k.taskDone.puts = k.puts ∧ k.taskDone.takes = k.takes ∧ k.taskDone.exits = k.exits
+      ∧ k.taskDone.evWaiters = k.evWaiters := by
+  simp only [K.taskDone, K.taskDoneOk, K.setFinished]
+  repeat' (first | split | exact ⟨rfl, rfl, rfl, rfl, rfl⟩)
+
+theorem pre_not_inBlock (x : Core) (h : preBlock x.phase = true) : isInBlock x.phase = false := by
+  cases x with | mk ph m => cases ph <;> simp_all [isInBlock, preBlock]
+
+/-- a step that ends a consumer which is inside its block: the block was left (normally, by exception or by
+cancellation), and that exit made exactly one `task_done()` call — the consumer's only one — which brought the
+unfinished counter down by exactly one; no item was removed, nothing was hand-marked -/
+theorem KStep.block_exit {k k' : K} (h : KStep k k') (hi : k.Inv) (c : Nat) (x x' : Core)
+    (hx : k.cores[c]? = some x) (hp : isInBlock x.phase = true) (hx' : k'.cores[c]? = some x') (hd : Q.isDone x'.phase = true) :
+    x.marks = 0 ∧ x'.marks = 1 ∧ (∃ e, x'.phase = .done e true) ∧ k'.tdCalls = k.tdCalls + 1 ∧ k'.exits = k.exits + 1
+      ∧ k'.unfinished + 1 = k.unfinished ∧ k'.takes = k.takes ∧ k'.items = k.items ∧ k'.puts = k.puts
+      ∧ k'.valueErrors = k.valueErrors := by
+  have hnd : Q.isDone x.phase = false := by
+    cases x with | mk ph m => cases ph <;> simp_all [Q.isDone, isInBlock]
+  have hlt : c < k.cores.length := (List.getElem?_eq_some_iff.1 hx).1
+  have hm : x.marks = 0 := by
+    have := hi.core x (List.mem_of_getElem? hx)
+    simpa [CoreOK, inBlock_not_tookDone x hp] using this
+  have hne : ∀ c0 x0, k.cores[c0]? = some x0 → preBlock x0.phase = true → c0 ≠ c := by
+    intro c0 x0 h0 hp0 hc
+    subst hc; rw [hx] at h0; cases h0
+    have := pre_not_inBlock x hp0
+    rw [hp] at this; cases this
+  cases h with
+  | refl => rw [hx] at hx'; cases hx'; simp [hnd] at hd
+  | put y => simp only [K.put] at hx'; rw [hx] at hx'; cases hx'; simp [hnd] at hd
+  | spawn =>
+    simp only [K.spawn, List.getElem?_append, hlt, if_true] at hx'
+    rw [hx] at hx'; cases hx'; simp [hnd] at hd
+  | join => simp only [K.join] at hx'; rw [hx] at hx'; cases hx'; simp [hnd] at hd
+  | wait c0 x0 h0 hp0 =>
+    have hc := hne c0 x0 h0 hp0
+    simp only [K.wait, K.setPhase, List.getElem?_modify, hx, Option.map_eq_map, Option.map_some, Option.some.injEq, hc,
+      if_false] at hx'
+    subst hx'; simp [hnd] at hd
+  | take c0 x0 h0 hp0 =>
+    have hc := hne c0 x0 h0 hp0
+    unfold K.take at hx'
+    split at hx'
+    · rw [hx] at hx'; cases hx'; simp [hnd] at hd
+    · simp only [K.setPhase, List.getElem?_modify, hx, Option.map_eq_map, Option.map_some, Option.some.injEq, hc,
+        if_false] at hx'
+      subst hx'; simp [hnd] at hd
+  | abort c0 x0 h0 hp0 =>
+    have hc := hne c0 x0 h0 hp0
+    simp only [K.abort, K.setPhase, List.getElem?_modify, hx, Option.map_eq_map, Option.map_some, Option.some.injEq, hc,
+      if_false] at hx'
+    subst hx'; simp [hnd] at hd
+  | exit c0 x0 e h0 hp0 =>
+    rw [K.cores_exit] at hx'
+    simp only [List.getElem?_modify, hx, Option.map_eq_map, Option.map_some, Option.some.injEq] at hx'
+    by_cases hc : c0 = c
+    · subst hc
+      simp only [if_true] at hx'
+      subst hx'
+      have hpos := hi.cnt.1
+      have h1 := countP_modify_at Core.inBlock k.cores c0 x (fun y => { phase := .done .ok true, marks := y.marks }) hx
+      have hib : x.inBlock = true := hp
+      have e1 : Core.inBlock { phase := .done .ok true, marks := x.marks } = false := rfl
+      simp only [hib, e1, if_true, Bool.false_eq_true, if_false, Nat.add_zero] at h1
+      simp only [K.view] at hpos
+      have hpos' : 0 < k.unfinished := by omega
+      have hv := K.view_exit k c0 e hpos'
+      simp only [K.view, V.mk.injEq] at hv
+      obtain ⟨-, v2, -, -, v5, v6, v7, v8, v9⟩ := hv
+      refine ⟨hm, by simp [hm], ⟨e, rfl⟩, v7, v6, by omega, v9, (K.joiners_exit k c0 e).2.2.1, v5, v8⟩
+    · simp only [hc, if_false] at hx'; subst hx'; simp [hnd] at hd
+  | stepJ j =>
+    rw [(K.view_stepJoiner k j).2, hx] at hx'; cases hx'; simp [hnd] at hd
+  | handTake =>
+    rw [K.cores_handTake, hx] at hx'; cases hx'; simp [hnd] at hd
 
 /-- what `task_done()` does to the joiners when the counter is positive -/
 theorem K.joiner_taskDone (k : K) (hpos : 0 < k.unfinished) (j : Nat) (x : Joiner) (hx : k.joiners[j]? = some x) :
@@ -124,6 +204,18 @@ theorem KStep.join_release {k k' : K} (h : KStep k k') (hi : k.Inv) (j : Nat) (x
     · unfold K.stepJoiner K.joinStart K.joinWake K.modJ
       repeat' split
       all_goals simp [hj0, hx]
+  | handTake =>
+    rcases K.handTake_cases k with ⟨_, e⟩ | ⟨y, rest, hit, e⟩ <;> rw [e]
+    · exact ⟨x, hx, hp, .inr ⟨hpos, rfl⟩⟩
+    · obtain ⟨t1, t2⟩ := K.joiner_taskDone ({ k with items := rest, takes := k.takes + 1 } : K) hpos j x hx
+      rw [t1, t2]
+      by_cases h1 : k.unfinished = 1
+      · have hw : K.wakes ({ k with items := rest, takes := k.takes + 1 } : K) j x = true := by
+          simp [K.wakes, hf, hmem]
+        rw [if_pos ⟨h1, hw⟩]
+        exact ⟨_, rfl, hp, .inl ⟨by simp only; omega, rfl, rfl⟩⟩
+      · rw [if_neg (fun h => h1 h.1)]
+        exact ⟨_, rfl, hp, .inr ⟨by simp only; omega, rfl⟩⟩
 
 /-- **at call time**: the first step of a `join()` task returns at once iff nothing is unfinished; otherwise it
 registers as a waiter of the event -/
